@@ -46,9 +46,8 @@ open_("C04", ["C04|obs-mismatch|*|S/*|*"],
       SP + "a transaction that writes several buckets records the bucket metadata (key range used by GetAll) for the bucket of its LAST entry only, computed over the keys of all its entries; together with the bucket+key concatenation ambiguity, reads of one bucket depend on writes to another")
 open_("C04", ["C04|obs-mismatch|L*|KV/*|merge*", "C04|obs-mismatch|RPeek:*|KV/*|merge*", "C04|call-result|L*|KV/*|merge*", "C04|call-result|RPop:*|KV/*|merge*"],
       "Merge does not preserve lists (the defect recorded under C15) - seen here because Merge is in C04's alphabet")
-open_("C06", ["C06|call-result|SRem:err-for-ok|*|ds/set", "C06|obs-mismatch|SCard:wrong-value|KV/*|*", "C06|obs-mismatch|SIsMember:wrong-value|KV/*|*", "C06|obs-mismatch|SMembers:extra|KV/*|*",
-              "C06|obs-mismatch|SDiffByOneBucket:extra|KV/*|*", "C06|obs-mismatch|SDiffByTwoBuckets:extra|KV/*|*", "C06|obs-mismatch|SUnionByOneBucket:extra|KV/*|*", "C06|obs-mismatch|SUnionByTwoBuckets:extra|KV/*|*"],
-      "the empty member can be added to a set (SAdd) but never removed: Set.SRem rejects an empty first item ('item empty', required by the repository's own TestSet_SRem), so SRem/SPop/SMove of \"\" return success and leave it in the set")
+open_("C06", ["C06|call-result|SRem:err-for-ok|*|ds/set", "C06|obs-mismatch|*|KV/*|*empty-member*", "C06|call-result|*|KV/*|*empty-member*", "C06|reopen-diff|*|KV/*|*empty-member*"],
+      "the empty member can be added to a set (SAdd) but never removed: Set.SRem rejects an empty first item ('item empty', required by the repository's own TestSet_SRem), so SRem/SPop/SMove of \"\" return success and leave it in the set (signatures carry the tag empty-member: histories that never touch the empty member are not covered by this entry)")
 open_("C07", ["C07|call-result|ZRem:err-for-ok|KV/*|*"],
       "the member with the empty key can be added (ZAdd stores key|score) but ZRem(bucket, \"\") is rejected with ErrKeyEmpty, so it can only be removed by rank or pop")
 open_("C10", ["C10|recovered-state|*|S/*|*"],
